@@ -107,12 +107,26 @@ Theorem C03_future_first_refuted_F9 :
 Proof. exact F9_refuted. Qed.
 Print Assumptions C03_future_first_refuted_F9.
 
+(* F40: a bytes literal is not a docstring; with the repair none is in front of a new import block *)
+Theorem C03_future_first_not_after_bytes : forall c bs bs' nb,
+  f40 c = true -> insert_new c bs = Ok (bs', nb) ->
+  exists pro rest, bs' = (pro ++ Imps nb :: sep_block :: rest)%list /\ Forall nobytes (stmts_of pro).
+Proof. exact new_block_not_after_bytes. Qed.
+Print Assumptions C03_future_first_not_after_bytes.
+
+Theorem C03_future_first_refuted_F40 :
+  exists pro rest nb, insert_new unchanged w40_blocks = Ok ((pro ++ Imps nb :: sep_block :: rest)%list, nb) /\
+                      exists s, In s (stmts_of pro) /\ is_bytes s = true.
+Proof. exact F40_refuted. Qed.
+Print Assumptions C03_future_first_refuted_F40.
+
 (* the provable part of the tool-level fixed point.  Full statement  tidy (tidy x) = tidy x  is refuted on the
-   real tool by F16 (`import os.path\nprint(os.getcwd())`: the first pass removes the import, the second adds
-   `import os`) and F34 (`from os import sep as b\ndef f(): return b\nfrom os import pardir as b\nprint(f())`),
-   both properties of the scope analysis (C02), which is an oracle here.  Proved: the second-pass analysis and
-   edit see exactly the text the first pass printed; and reformat is a fixed point whenever the statement
-   splitter re-finds blocks that print alike in the printed text. *)
+   real tool by C03:F34 (`class F:\n    d.x\n    (lambda b: {f for e in d})\nimport keyword as d` with
+   `from m import d` in the database: the import added above the lambda changes how the next pass resolves its
+   body read) and C03:F39 (a mandatory import shadowing a different import of another block) - the first a property
+   of the scope analysis (C02), which is an oracle here.  (F16, the third witness of the design, is fixed in /repo.)
+   Proved: the second-pass analysis and edit see exactly the text the first pass printed; and reformat is a fixed
+   point whenever the statement splitter re-finds blocks that print alike in the printed text. *)
 Theorem C03_tidy_analyses_first_pass_output :
   forall (R : list import -> str) (parse : str -> list block)
          (scan : str -> bool -> list (nat * str) * list (nat * import)) c fl known mand bs0 t1,
